@@ -44,6 +44,12 @@ CHECKS["C07"] = {
     "technique": "symbolic execution (CrossHair/z3) over a file-system model with a replay scheduler; schedule (first process, switch points) as solver variables; real two-process replay",
 }
 
+CHECKS["C01"] = {
+    "text": "Whole-library symbolic execution: the real dds analysis (introspect, _introspect_indirect, _retrieve_objects, fun_args, _annotations), evaluation (_api) and stores run on template programs whose source text is concrete and whose tracked module variables (int, str, bool, float, list, tuple, dict, None, path), run-time arguments and 2-3 step histories (value changes, body edits of the kept function / of transitive callees / of class methods / in other modules, reverts, process restarts, entry-style switches, memory / noop / cache-wrapped stores) are solver variables, under an interning ideal-hash model. After every step the value returned by dds must equal the value the plain twin of the same sources returns. Exhaustive over all values of the leaves per template and history; bounded by the template corpus and history length.",
+    "design_ref": "DESIGN.md 5-C01",
+    "technique": "symbolic execution (CrossHair/z3) of the whole dds analysis + evaluation on template programs with symbolic module variables / arguments / histories under an ideal-hash model, differential against a dds-free plain twin",
+}
+
 NOT_APPLICABLE = {}
 
 
